@@ -533,4 +533,19 @@ theorem int_member_exact (info : ElemInfo) (m : Nat) (v : Ext) (w : Bytes)
                   omega
           · rw [if_neg hfit] at he; cases he
 
+/-! ### non-vacuity: concrete inputs on which the hypotheses hold (evaluated by the kernel) -/
+open FFS.Model.Eip712 FFS.Model.EthTypes
+def isOk {α : Type} : Outcome α → Bool | .ok _ => true | _ => false
+/-- non-vacuity of `int_member_exact`: for `uint256` (table entry "uint") the three spellings of 255 are accepted and give
+    the same word; 2^256 and a fraction are rejected -/
+example : (match Gen.AbiTypeTable.table.find? (·.name == "uint") with
+    | some info =>
+      info.reader == "getIntegerFromInterface" &&
+      (abiEncode info 256 (.num "255" (.int 255) (.int 255)) == .ok (toBE 32 255)) &&
+      (abiEncode info 256 (.str "255" (.int 255) (.int 255)) == .ok (toBE 32 255)) &&
+      (abiEncode info 256 (.str "0xff" .fail .fail) == .ok (toBE 32 255)) &&
+      !isOk (abiEncode info 256 (.str "0x10000000000000000000000000000000000000000000000000000000000000000" .fail .fail)) &&
+      !isOk (abiEncode info 256 (.num "1.5" .notInt .notInt))
+    | none => false) = true := by decide +kernel
+
 end FFS.Props.C14
